@@ -7,7 +7,7 @@
 (* can exceed 2^31 (products of significands, 32/64-bit machine words,     *)
 (* exact rationals) is a BigInt.                                           *)
 (*                                                                         *)
-(*   magnitude : little-endian sequence of limbs in 0..B-1, B = 2^15,      *)
+(*   magnitude : little-endian sequence of limbs in 0..BASE-1, BASE = 2^15,      *)
 (*               normalised (no most-significant zero limb); zero = <<>>   *)
 (*   signed    : record [neg |-> BOOLEAN, m |-> magnitude], zero is never  *)
 (*               negative                                                  *)
@@ -17,7 +17,7 @@
 (***************************************************************************)
 EXTENDS Integers, Sequences
 
-B == 32768
+BASE == 32768
 
 Pow2(n) == 2^n          \* n <= 30 only
 
@@ -33,11 +33,11 @@ NIsZero(a) == Len(a) = 0
 NLimb(a, i) == IF i <= Len(a) THEN a[i] ELSE 0      \* i is 1-based
 
 RECURSIVE NFromNat(_)
-NFromNat(n) == IF n = 0 THEN << >> ELSE <<n % B>> \o NFromNat(n \div B)
+NFromNat(n) == IF n = 0 THEN << >> ELSE <<n % BASE>> \o NFromNat(n \div BASE)
 
 \* value of a magnitude known to be < 2^31
 RECURSIVE NToNatFrom(_, _)
-NToNatFrom(a, i) == IF i > Len(a) THEN 0 ELSE a[i] + B * NToNatFrom(a, i + 1)
+NToNatFrom(a, i) == IF i > Len(a) THEN 0 ELSE a[i] + BASE * NToNatFrom(a, i + 1)
 NToNat(a) == NToNatFrom(a, 1)
 NFitsNative(a) == Len(a) <= 2 \/ (Len(a) = 3 /\ a[3] < 2)
 
@@ -54,7 +54,7 @@ RECURSIVE NAddFrom(_, _, _, _, _)
 NAddFrom(a, b, i, n, c) ==
     IF i > n THEN (IF c = 0 THEN << >> ELSE <<c>>)
     ELSE LET t == NLimb(a, i) + NLimb(b, i) + c
-         IN <<t % B>> \o NAddFrom(a, b, i + 1, n, t \div B)
+         IN <<t % BASE>> \o NAddFrom(a, b, i + 1, n, t \div BASE)
 NAdd(a, b) == NAddFrom(a, b, 1, IF Len(a) > Len(b) THEN Len(a) ELSE Len(b), 0)
 
 \* a - b, requires a >= b
@@ -62,7 +62,7 @@ RECURSIVE NSubFrom(_, _, _, _)
 NSubFrom(a, b, i, br) ==
     IF i > Len(a) THEN << >>
     ELSE LET t == a[i] - NLimb(b, i) - br
-         IN IF t < 0 THEN <<t + B>> \o NSubFrom(a, b, i + 1, 1)
+         IN IF t < 0 THEN <<t + BASE>> \o NSubFrom(a, b, i + 1, 1)
                      ELSE <<t>> \o NSubFrom(a, b, i + 1, 0)
 NSub(a, b) == NNorm(NSubFrom(a, b, 1, 0))
 
@@ -71,7 +71,7 @@ RECURSIVE NMulSmallFrom(_, _, _, _)
 NMulSmallFrom(a, k, i, c) ==
     IF i > Len(a) THEN (IF c = 0 THEN << >> ELSE <<c>>)
     ELSE LET t == a[i] * k + c
-         IN <<t % B>> \o NMulSmallFrom(a, k, i + 1, t \div B)
+         IN <<t % BASE>> \o NMulSmallFrom(a, k, i + 1, t \div BASE)
 NMulSmall(a, k) == IF k = 0 \/ Len(a) = 0 THEN << >> ELSE NMulSmallFrom(a, k, 1, 0)
 
 NShiftLimbs(a, n) == IF Len(a) = 0 THEN a ELSE [i \in 1..n |-> 0] \o a
@@ -87,7 +87,7 @@ NMul(a, b) == IF Len(a) = 0 \/ Len(b) = 0 THEN << >>
 RECURSIVE NDivSmallFrom(_, _, _, _)
 NDivSmallFrom(a, k, i, r) ==       \* processes limbs i..1, r = running remainder
     IF i = 0 THEN << << >>, r >>
-    ELSE LET t    == r * B + a[i]
+    ELSE LET t    == r * BASE + a[i]
              rest == NDivSmallFrom(a, k, i - 1, t % k)
          IN << rest[1] \o <<t \div k>>, rest[2] >>
 NDivSmall(a, k) == LET r == NDivSmallFrom(a, k, Len(a), 0) IN << NNorm(r[1]), r[2] >>
@@ -141,9 +141,9 @@ NDivLimbs(an, bn, i, q, rem) ==        \* consumes limbs i..1 of an; q = digits 
     ELSE LET r1 == NNorm(<<an[i]>> \o rem)
              n  == Len(bn)
              qh0 == IF NCmp(r1, bn) < 0 THEN 0
-                    ELSE LET top2 == NLimb(r1, n + 1) * B + NLimb(r1, n)
+                    ELSE LET top2 == NLimb(r1, n + 1) * BASE + NLimb(r1, n)
                              e == top2 \div bn[n]
-                         IN IF e > B - 1 THEN B - 1 ELSE e
+                         IN IF e > BASE - 1 THEN BASE - 1 ELSE e
              qh == NFixDigit(bn, r1, qh0)
          IN NDivLimbs(an, bn, i - 1, <<qh>> \o q, IF qh = 0 THEN r1 ELSE NSub(r1, NMulSmall(bn, qh)))
 NDivMod(a, b) ==
